@@ -555,6 +555,27 @@ def k5(led, rid, ctx):
     led.floor(rid, "literal-definition line shapes", n, 5)
 
 
+def k6(led, rid, ctx):
+    """SIBLINGS: the two identifier parsers (proof reader, literal-definition reader) accept the same
+    language, which is the language of names the writer passes through verbatim"""
+    p = ctx.drcp
+    a, b = p.fn("reader::identifier"), p.fn("literal_definitions::identifier")
+
+    def core(f):
+        e = parser_expr(f)
+        while e is not None and e.k == "call" and e.a.name in ("map", "map_opt", "map_res", "cut", "complete") and e.b:
+            e = peel(e.b[0], calls=None)
+        return show(e) if e is not None else None
+    ca, cb = core(a), core(b)
+    led.check(ca is not None and ca == cb, rid, "identifier-parsers-agree", a.span, "same combinator tree",
+              "the proof reader's identifier grammar (%s) differs from the literal-definition reader's (%s): a "
+              "name that one file of a proof may contain is rejected in the other; the writer emits labels and "
+              "variable names verbatim" % ((ca or "?")[:150], (cb or "?")[:150]))
+    leading = ca is not None and "tag('_')" in ca.split("many0", 1)[0]
+    led.check(leading, rid, "identifier-may-start-with-underscore", a.span, "alt(alpha1, '_') first",
+              "identifiers starting with `_` (introduced variables, internal labels) are not accepted by the reader")
+
+
 def run(ctx, led):
     run_rule(led, "K1", "TOKENS: the literal tokens of writer and reader agree", k1, ctx)
     run_rule(led, "K2", "per step kind, every output skeleton of the writer (optional parts 0/1, lists "
@@ -563,3 +584,4 @@ def run(ctx, led):
     run_rule(led, "K3", "IntAtomicConstraint::not TABLE (involution) and comparison symbols", k3, ctx)
     run_rule(led, "K4", "NUM-WIDTH: every integer type of the format has a reader parser of the same type", k4, ctx)
     run_rule(led, "K5", "literal-definition lines: writer shapes (all atomic kinds and comparison symbols) ⊆ reader grammar", k5, ctx)
+    run_rule(led, "K6", "SIBLINGS: the identifier grammars of the two readers agree and admit a leading underscore", k6, ctx)
